@@ -190,7 +190,7 @@ class VLoop(asyncio.BaseEventLoop):
         self._vtime += dt
 
     # ---- convenience: run default schedule to quiescence -------------------------------------
-    def drain(self, horizon=50.0, max_steps=2_000_000, until=None):
+    def drain(self, horizon=50.0, max_steps=2_000_000, until=None, hold=()):
         """Default schedule: ready handles FIFO; when idle complete the oldest enabled job; when no
         job, fire timers inside `horizon`. Stops at quiescence (or when until() is true)."""
         n = 0
@@ -201,7 +201,7 @@ class VLoop(asyncio.BaseEventLoop):
             if self._ready:
                 self.run_one_handle()
             else:
-                ej = self.enabled_jobs()
+                ej = [j for j in self.enabled_jobs() if j.kind not in hold]  # hold: job kinds left pending (e.g. a busy writer thread)
                 if ej:
                     self.complete_job(ej[0])
                 else:
@@ -209,7 +209,7 @@ class VLoop(asyncio.BaseEventLoop):
                     if t is not None and t_end is not None and t._when > t_end:
                         t = None
                     if t is None:
-                        if self.jobs:
+                        if self.jobs and not hold:
                             raise HarnessError("deadlock: jobs pending but none enabled: %r"
                                                % [(j.kind, j.label) for j in self.jobs])
                         return until is None
